@@ -148,6 +148,9 @@ def events_for(st: LState):
     if d <= SEQ_DEPTH[0] + 1:
         firsts = [e for e in ev if not isinstance(e, str) and ((e[0] == "focus" and e[2] is None) or (e[0] == "valign" and e[1] in ("top", "bottom")))]
         seconds = [e for e in ev if not isinstance(e, str) and e[0] in ("del", "ins", "app", "repl", "retext", "resize")]
+        if SEQ_DEPTH[1] == "thorough":
+            # the deeper tier has four times the configurations and one more level: fewer pair kinds
+            seconds = [e for e in seconds if e[0] in ("del", "ins", "app")]
         if d > SEQ_DEPTH[0]:
             # one step deeper only the pairs (set_focus, delete)
             firsts = [e for e in firsts if e[0] == "focus"]
@@ -160,7 +163,7 @@ def events_for(st: LState):
     return ev
 
 
-SEQ_DEPTH = [0]
+SEQ_DEPTH = [0, "quick"]
 ZERO_ROW_SITES = ("ListBoxError@urwid.widget.listbox.ListBox.shift_focus", "ListBoxError@urwid.widget.listbox.ListBox.change_focus")
 
 
@@ -452,6 +455,7 @@ def run(tier, R):
             for size in ((W, 1), (W, 3)) if quick else SIZES:
                 cfgs.append((wk, kl, size))
     SEQ_DEPTH[0] = 0  # (un-rendered pairs as the first step; one step deeper only the (set_focus, delete) pairs)
+    SEQ_DEPTH[1] = tier
     spec = Spec(cfgs)
     res = R.bfs(spec, depth=2 if quick else 3, max_states=None if quick else 3_000_000)
     cov = {
